@@ -500,6 +500,8 @@ def run(ctx):
     ctx.setcount('lookups', nlook)
     ctx.setcount('name_comparisons', ncmp)
     ctx.setcount('fetch_step_sites', nstep)
+    for label, ok, msg, line in catalog_table(ctx):
+        ctx.ob('C10.catalog-store', f'__init__:{label}', ok, msg, file=QP, line=line, witness="QueryPlanner(predictor_metadata={'pred': {'integration_name': 'proj'}})")
     # C. resolvers: both are interpreted on name shapes x default namespaces -----------------------------------------------------------------
     for label, ok, msg, file, line in resolver_table(ctx):
         ctx.ob('C10.resolver', label, ok, msg, file=file, line=line, witness='select * from INT1.tbl1 a join files f on ...')
@@ -611,6 +613,68 @@ def model_resolution_table(ctx):
                     f'[{label}] get_predictor answers {got}, expected {want}: a name is a model exactly when its qualifier (the default namespace for a bare name) plus '
                     f'name is in the model catalog, the version suffix is kept, names of tables inside a database (database.schema.table) are tables, and the catalog is '
                     f'not modified', gp.lineno))
+    return out
+
+
+def catalog_table(ctx):
+    """QueryPlanner.__init__ interpreted (sa/interp.py) on catalogs given in every accepted form (integrations as names / records, models as a list of records
+    or as the legacy dictionary, with and without integration_name, mixed letter case, with and without the legacy predictor_namespace): every model is
+    registered under <its project>.<name> in lower case, its project is a known project (so that `project.model` routes to it), integrations and projects are
+    known databases in lower case, both model forms give the same catalog, and the caller's metadata is not changed.  -> [(label, ok, message, line)]"""
+    from ..interp import Interp, Obj, Raised, Env
+    import copy as _copy
+    qp = class_named(ctx.src.tree(QP), 'QueryPlanner')
+    init = function_named(qp, '__init__')
+    ctx.need(init is not None, 'QueryPlanner.__init__ not found')
+    integrations = ['Int1', {'name': 'Int2', 'type': 'data'}, {'name': 'Proj', 'type': 'project'}]
+    models = [('Pred', 'ProjX'), ('p2', None), ('M3', 'proj')]
+    out = []
+    for ns in (None, 'Legacy'):
+        results = {}
+        for form in ('list', 'dict'):
+            if form == 'list':
+                meta = [dict({'name': n}, **({'integration_name': i} if i else {})) for n, i in models]
+            else:
+                meta = {n: dict(**({'integration_name': i} if i else {})) for n, i in models}
+            meta0 = _copy.deepcopy(meta)
+            self_ = Obj('QueryPlanner')
+            it = Interp.for_file(ctx.src, QP, {}, {'QueryPlan': lambda it_, *a, **k: Obj('QueryPlan')})
+            label = f'models as {form}, predictor_namespace={ns}'
+            try:
+                it.call_function(init, [self_], dict(query=None, integrations=_copy.deepcopy(integrations), predictor_namespace=ns, predictor_metadata=meta,
+                                                     default_namespace='Int1'), Env())
+            except Raised as r:
+                out.append((label, False, f'[{label}] QueryPlanner.__init__ raises {r.exc_name}', init.lineno))
+                continue
+            info = self_.attrs.get('predictor_info') or {}
+            projects = set(self_.attrs.get('projects') or [])
+            dbs = list(self_.attrs.get('databases') or [])
+            legacy = (ns or 'mindsdb').lower()
+            want_keys = {f'{(i or legacy)}.{n}'.lower() for n, i in models}
+            want_projects = {'mindsdb', 'proj'} | {(i or legacy).lower() for n, i in models}
+            problems = []
+            if set(info) != want_keys:
+                problems.append(f'models are registered as {sorted(info)}, expected {sorted(want_keys)}')
+            for n, i in models:
+                rec = info.get(f'{(i or legacy)}.{n}'.lower())
+                if isinstance(rec, dict) and str(rec.get('integration_name', '')).lower() != (i or legacy).lower():
+                    problems.append(f'model {n} carries integration_name {rec.get("integration_name")!r}, expected {(i or legacy)!r}')
+            if not want_projects <= projects:
+                problems.append(f'projects {sorted(want_projects - projects)} of registered models / project records are not known projects: `project.model` is then '
+                                f'routed to the default namespace')
+            if any(p != p.lower() for p in projects | set(dbs) | set(self_.attrs.get('integrations') or {})):
+                problems.append('a catalog name is not stored in lower case')
+            if not (set(self_.attrs.get('integrations') or {}) == {'int1', 'int2'} and {'int1', 'int2'} | projects <= set(dbs)):
+                problems.append(f'integrations {sorted(self_.attrs.get("integrations") or {})} / databases {sorted(dbs)} do not cover the data integrations and all projects')
+            if meta != meta0:
+                problems.append('the caller\'s model metadata was modified')
+            if self_.attrs.get('default_namespace') != 'int1':
+                problems.append(f'default namespace stored as {self_.attrs.get("default_namespace")!r}')
+            results[form] = (sorted(info), sorted(projects), sorted(dbs))
+            out.append((label, not problems, f'[{label}] ' + '; '.join(problems), init.lineno))
+        if len(results) == 2:
+            out.append((f'both forms agree, predictor_namespace={ns}', results['list'] == results['dict'],
+                        f'the same models given as a list and as the legacy dictionary give different catalogs: {results["list"]} vs {results["dict"]}', init.lineno))
     return out
 
 
